@@ -300,7 +300,12 @@ func allCombos() []combo {
 
 func checkCombo(t vkit.TB, c combo) bool {
 	rec := vkit.Rec(prop)
-	wa, wb := vkit.NewAead("A"), vkit.NewAead("B")
+	keyA := rnd(32)
+	wa, wb := vkit.NewAeadKey("A", keyA), vkit.NewAead("B")
+	// the same wrapper after its key ID was changed by configuration (a KMS key that was
+	// relabelled, a pooled wrapper whose current encryptor moved on): it still opens
+	// what it sealed
+	waRelabelled := vkit.NewAeadKey("A-relabelled", keyA)
 	inner, cleanup := vkit.NewBackend(vkit.Inmem)
 	defer cleanup()
 	st := vkit.NewRecStorage(inner)
@@ -387,6 +392,13 @@ func checkCombo(t vkit.TB, c combo) bool {
 	}
 	if !proto.Equal(got, want) {
 		vkit.Violate(t, prop, "C12/roundtrip-differs/"+c.Type, "loading with the same wrapper did not return what was stored", c)
+		return false
+	}
+	if got2, err := load(st, nodeenrollment.WithStorageWrapper(waRelabelled)); err != nil {
+		vkit.Violate(t, prop, "C12/roundtrip-load-failed/"+c.Type+"/relabelled-wrapper", "loading with the same wrapper under a changed key ID failed: "+err.Error(), c)
+		return false
+	} else if !proto.Equal(got2, got) {
+		vkit.Violate(t, prop, "C12/roundtrip-differs/"+c.Type+"/relabelled-wrapper", "loading with the same wrapper under a changed key ID returned something else", c)
 		return false
 	}
 	// no wrapper / other wrapper: must fail (a record in which nothing was left to
